@@ -1505,6 +1505,10 @@ def c5(repo: Repo) -> RuleResult:
             if not loops:
                 if OWN not in shape:
                     res.unsure(f"C5: {fi.qual}: a path returns `{shape}` without the definition's own name")
+                elif ".join(" in shape:
+                    f = Finding("C5", fi.rel, fi.node.lineno, fi.qual, shape, "names are joined on a path that does not walk the enclosing scopes: only a fixed number of enclosing names can precede the definition's own name, deeper nesting loses its outer names", witness="message Node { message Link { message Hdr {} } } comes out as Link_Hdr and collides with a file-level Link.Hdr", tag="inner_proto:depth")
+                    f.part = "nesting"
+                    res.bad(f)
                 continue
             lp = loops[0]
             it = show(lp.args[0]) if lp.args else ""
